@@ -42,7 +42,7 @@ def check(ctx, tier):
     W.report(ctx, tk, "C09.e", [ctx.func(q) for q in fs])
     tk.purity("C09.p", [ctx.func(q) for q in ['raggedarray.RaggedArray.sum', 'raggedarray.RaggedArray.mean', 'raggedarray.RaggedArray.col_counts', 'raggedarray.indexablearray.IndexableArray.get_column_values']], "the operation does not write into its operands' buffers", content_only=True)
     from .. import hazards as _hz, scopes as _sc
-    _hz.generic(ctx, tk, "C09.z", _sc.scope(tk, "C09", depth=2))
+    _hz.generic(ctx, tk, "C09.z", _sc.scope(tk, "C09", depth=1))
     return {}
 
 
